@@ -3,8 +3,9 @@
 Spec: Session.tla (USE as UseConnect / UseStore / UseReply, concurrent clients, the session table and its lock)
 model-checked by TLC for ForwardInClientKs, OnlyValidKs, FailedUseKeepsKs, Isolation.  Binding: seeded histories
 of USE (valid, quoted, mixed-case, non-existent) and data requests over concurrent clients with different
-versions/compressions - including every client switching to the same new keyspace at the same instant - are
-run against the real proxy; the fake backend records keyspace / version / compression of the connection every
+versions/compressions - including every client switching to the same new keyspace at the same instant, and a gated
+schedule of Session.tla's UseConnect in which every pool has failed before the creator of the session looks at the
+outcome - are run against the real proxy; the fake backend records keyspace / version / compression of the connection every
 data request arrives on; TLC validates the trace against TraceSession.tla.
 """
 import json
@@ -73,9 +74,11 @@ def run(ctx):
     raw = ctx.path("raw-session.ndjson")
     stats = ctx.path("stats-session.json")
     ctx.drv(["session", "-rounds", "12" if t else "3", "-clients", "6", "-steps", "30" if t else "14", "-nodes", "2",
-             "-out", raw, "-stats", stats], timeout=1500)
+             "-gated", "40" if t else "12", "-out", raw, "-stats", stats], timeout=1500)
     st = json.load(open(stats))
     events, nreq, nuse = normalise(core.read_ndjson(raw))
+    if st.get("Gated", 0) < (6 if not t else 20):
+        raise core.Inconclusive("the gated USE schedule could not be forced (%s of the attempts)" % st.get("Gated"))
     if nreq < 10 or nuse < 5:
         raise core.Inconclusive("driver produced too few operations (%d data, %d USE)" % (nreq, nuse))
     v = core.validate_trace(ctx, "TraceSession", events, {}, name="session")
